@@ -3,6 +3,7 @@
   well-formed column gives back its values.
 -/
 import PdtModel.Model.Write
+import PdtModel.Model.WriteWF
 import PdtModel.Props.C02
 set_option linter.unusedSimpArgs false
 namespace Pdt.Write
@@ -19,9 +20,6 @@ structure NumOK (ext : Ext) (tok : Str) : Prop where
 structure IntOK (ext : Ext) (i : Int) : Prop where
   notMarker : Gen.missingFloatConvert.contains (normalize (intToStr i)) = false
   parse : ext.parseFloat (intToStr i) = some (intToStr i ++ ".0".toList)
-
-/-- `str(datetime)` of a timestamp -/
-def dtText (tok : Str) : Str := tok.map (fun c => if c = 'T' then ' ' else c)
 
 /-- the external `to_datetime` reads back a rendered timestamp as the same timestamp; the rendering starts
     with a digit, has no surrounding blanks and is not a marker -/
